@@ -266,29 +266,20 @@ func judge(sp *Spec, res *result) (out []finding, decided []string) {
 			return
 		}
 	}
-	must, why := 0, ""
-	switch {
-	case terminal || !told:
-		must, why = total, "the stream reached its known ending"
-	default:
-		for _, p := range src.pages {
-			pub := p.pub
-			if pub == 0 || pub < res.DryT {
-				must += len(p.items)
-			} else {
-				break
-			}
+	// (dry, clock) told, and the stream still has a future: not before grace after DryUp(), up to the
+	// polling granularity. The one long consumer pause is NOT part of the granularity: the statement
+	// counts the grace period from the moment the paginator was told.
+	if told && !terminal {
+		decided = append(decided, "grace-elapsed-before-end")
+		earliest := res.DryT + us(st.GraceUs) - sp.tol()
+		if us(end.T1Us) < earliest {
+			add("stream."+opName(end.Op), consumer+",dryup-called", "ended-before-grace-elapsed",
+				fmt.Sprintf("%s reported the end at %v after %d of %d items; DryUp() was called at %v, grace %v (granularity allowed for: %v): not before %v",
+					opName(end.Op), us(end.T1Us), nMain, total, res.DryT, us(st.GraceUs), sp.tol(), earliest))
+			return
 		}
-		why = fmt.Sprintf("published before DryUp() at %v", res.DryT)
 	}
-	decided = append(decided, "stream-complete")
-	if nMain < must {
-		add("stream."+opName(end.Op), consumer+",dryup-called", "published-before-dryup-not-yielded",
-			fmt.Sprintf("%s reported the end at %v after %d items; %d items were %s (grace %v, back-off %v)",
-				opName(end.Op), us(end.T1Us), nMain, must, why, us(st.GraceUs), us(st.BackoffUs)))
-		return
-	}
-	// every page that was handed to the paginator before it reported the end
+	// (all) every page that was handed to the paginator before it reported the end
 	held := 0
 	for _, p := range src.pages {
 		if p.deliveredAt != 0 && p.deliveredAt < end.Seq1 {
@@ -297,19 +288,35 @@ func judge(sp *Spec, res *result) (out []finding, decided []string) {
 			break
 		}
 	}
+	decided = append(decided, "stream-complete")
 	if nMain < held {
 		add("stream."+opName(end.Op), consumer, "delivered-page-not-yielded",
 			fmt.Sprintf("%s reported the end at %v after %d items although pages holding %d items had been handed to the paginator", opName(end.Op), us(end.T1Us), nMain, held))
 		return
 	}
-	if told && !terminal && st.SlowAfterItems < 0 {
-		decided = append(decided, "grace-elapsed-before-end")
-		earliest := res.DryT + us(st.GraceUs) - sp.tol()
-		if us(end.T1Us) < earliest {
-			add("stream."+opName(end.Op), consumer+",dryup-called", "ended-before-grace-elapsed",
-				fmt.Sprintf("%s reported the end at %v; DryUp() at %v + grace %v - granularity %v = %v",
-					opName(end.Op), us(end.T1Us), res.DryT, us(st.GraceUs), sp.tol(), earliest))
+	must, why := 0, ""
+	switch {
+	case terminal:
+		must, why = total, "in the stream, which reached its known ending"
+	case res.slowDone && res.SlowEndT > res.DryT:
+		// the consumer itself was away during (part of) the window between DryUp() and the end: the
+		// paginator was not being asked, nothing can be demanded beyond the clock clause above
+		must, why = 0, ""
+	default:
+		for _, p := range src.pages {
+			if p.pub == 0 || p.pub < res.DryT {
+				must += len(p.items)
+			} else {
+				break
+			}
 		}
+		why = fmt.Sprintf("published before DryUp() at %v", res.DryT)
+		decided = append(decided, "published-before-dryup-yielded")
+	}
+	if nMain < must {
+		add("stream."+opName(end.Op), consumer+",dryup-called", "published-before-dryup-not-yielded",
+			fmt.Sprintf("%s reported the end at %v after %d items; %d items were %s (grace %v, back-off %v)",
+				opName(end.Op), us(end.T1Us), nMain, must, why, us(st.GraceUs), us(st.BackoffUs)))
 	}
 	return
 }
